@@ -122,6 +122,7 @@ def run(ctx):
     Probes.get().on_start(MazeDataset.generate, lambda fr: gen_calls.__setitem__("n", gen_calls["n"] + 1), name="MazeDataset.generate")
     strace_ok = shutil.which("strace") is not None
     _neighbouring_requests(ctx)
+    _custom_subset_over_cache(ctx)
     for si, spec in enumerate(specs):
         base = os.path.join(ctx.work, f"cache-{spec['key']}")
         os.makedirs(base, exist_ok=True)
@@ -429,6 +430,22 @@ def _neighbouring_requests(ctx):
                 return MazeDatasetConfig(name="c11-mine", grid_n=4, n_mazes=10, maze_ctor=gen, seed=32)
             return make
         scenarios.append(("generator-redefined", [("first definition", mk_gen(_gen_mine_v1)), ("second definition", mk_gen(_gen_mine_v2))]))
+    if ctx.mine(10) or ctx.mine(11):
+        # ONE configuration object used for several requests, its maze count (or seed) assigned in place in between - after the object
+        # has been used (file name, summary, an earlier request); a fresh copy of its current state says what each request must return
+        import copy as _copy
+        box = {}
+
+        def mk_reused(field, value):
+            def make():
+                if "cfg" not in box:
+                    box["cfg"] = MazeDatasetConfig(name="c11-reused", grid_n=3, n_mazes=6, maze_ctor=GENERATORS_MAP["gen_dfs"], seed=33)
+                    box["cfg"].to_fname(); box["cfg"].summary()
+                setattr(box["cfg"], field, value)
+                return box["cfg"]
+            return make
+        scenarios.append(("one-config-object-reused", [("6 mazes", mk_reused("n_mazes", 6)), ("15 mazes, same object", mk_reused("n_mazes", 15)), ("6 mazes again", mk_reused("n_mazes", 6)),
+                                                        ("seed changed in place", mk_reused("seed", 34)), ("9 mazes", mk_reused("n_mazes", 9))]))
     for tag, steps in scenarios:
         base = os.path.join(ctx.work, f"neigh-{tag}")
         os.makedirs(base, exist_ok=True)
@@ -456,6 +473,58 @@ def _neighbouring_requests(ctx):
         finally:
             GENERATORS_MAP.pop("gen_mine", None)
             shutil.rmtree(base, ignore_errors=True)
+
+
+def _is_long(m, min_len=4):
+    return len(m.solution) >= min_len
+
+
+def _custom_subset_over_cache(ctx):
+    """a subset of the cached dataset, selected with a user predicate (custom_maze_filter) and saved back over the cache file: the next
+    request for the unfiltered configuration must still get what a fresh generation gives (or an error), and leave a loadable file"""
+    from maze_dataset import MazeDataset, MazeDatasetConfig
+    from maze_dataset.generation.generators import GENERATORS_MAP
+
+    if not ctx.mine(14):
+        return
+    base = os.path.join(ctx.work, "custom-subset")
+    os.makedirs(base, exist_ok=True)
+    try:
+        for t, (g_n, n) in enumerate([(4, 12), (5, 9), (3, 20)]):
+            mk = lambda: MazeDatasetConfig(name=f"c11-cs{t}", grid_n=g_n, n_mazes=n, maze_ctor=GENERATORS_MAP["gen_dfs"], seed=60 + t)  # noqa: E731
+            case = dict(fault="custom-filtered-subset-saved-over-cache", grid_n=g_n, n_mazes=n)
+            with warnings.catch_warnings():
+                warnings.simplefilter("ignore")
+                ref_d = digests(MazeDataset.from_config(mk(), load_local=False, save_local=False, do_download=False))
+                out = request(mk(), base)
+                fpath = os.path.join(base, mk().to_fname() + ".zanj")
+                try:
+                    sub = out.custom_maze_filter(_is_long, min_len=4)
+                    sub.save(fpath)
+                except Exception as e:  # noqa: BLE001
+                    ctx.tally(f"c11:custom-subset-not-writable:{type(e).__name__}(not judged)")
+                    continue
+                if len(sub) == len(out):
+                    ctx.tally("c11:custom-subset-kept-everything(not judged)")
+                    continue
+                try:
+                    got = digests(request(mk(), base))
+                except ValueError:
+                    ctx.tally("c11:custom-subset:request-raised")
+                    continue
+                except Exception as e:  # noqa: BLE001
+                    ctx.violation(f"C11/custom-subset/exception/{type(e).__name__}", repr(e)[:300], case)
+                    continue
+                ctx.ev(); ctx.tally("c11:custom-subset-requests")
+                ctx.check(got == ref_d, "C11/foreign-file/custom-filter-record/other-data-served",
+                          f"the cache file held a custom-filtered subset ({len(sub)} of {n} mazes); the request for the unfiltered configuration returned {len(got)} mazes", case)
+                try:
+                    left = digests(MazeDataset.read(fpath))
+                except Exception:  # noqa: BLE001
+                    left = None
+                ctx.check(left == ref_d, "C11/foreign-file/custom-filter-record/file-left-behind-not-the-requested-data", f"file holds {None if left is None else len(left)} mazes", case)
+    finally:
+        shutil.rmtree(base, ignore_errors=True)
 
 
 def _strace_crashes(ctx, spec, base, path, judge, k0):
